@@ -162,6 +162,12 @@ class Array(AbstractPriorModel):
             if key.startswith("prior"):
                 setattr(array, key, from_dict(value, loaded_ids=loaded_ids))
 
+        if "assertions" in d:
+            array.assertions = [
+                from_dict(value, loaded_ids=loaded_ids)
+                for value in d["assertions"]
+            ]
+
         return array
 
     def tree_flatten(self):
